@@ -194,7 +194,8 @@ class C12(Prop):
             for res in run.results:
                 out += totality(res, "C12")
                 exc = res.get("exc")
-                if exc and res["op"]["op"] in ("get", "refresh", "get_many") and "PySnmpAuthError" in exc["mro"]:
+                scripted = any(run.dgrams[d]["label"].get("custom") for ex in run.exchanges(res) for d in ex["rx"])
+                if exc and not scripted and res["op"]["op"] in ("get", "refresh", "get_many") and "PySnmpAuthError" in exc["mro"]:
                     out.append(V("C12.agent-refused-keys", "%s failed with SnmpAuthError: the agent (hashlib keys) does not accept the session's keys" % res["op"]["op"]))
             return out
         for r in run.fn_results:
